@@ -213,6 +213,7 @@ def strip_generics(name):
 
 
 VARIANT_INDEX = {'None': 0, 'Some': 1, 'Ok': 0, 'Err': 1}
+ENUM_TYPES = {'Option', 'Result', 'ControlFlow', 'SerializableValue'}     # enums whose constructed values have known discriminants
 
 
 class Path:
@@ -406,7 +407,7 @@ class Interp:
             v = self.place(m.group(1), p)
             if isinstance(v, Adt) and v.path.startswith('variant:'):
                 return ('disc-of-adt', v)
-            if isinstance(v, Adt) and v.path.split('::')[-1] in VARIANT_INDEX and any(t in v.path for t in ('Option', 'Result', 'ControlFlow', 'SerializableValue')):
+            if isinstance(v, Adt) and v.path.split('::')[-1] in VARIANT_INDEX and any(t in v.path for t in ENUM_TYPES):
                 return z3.IntVal(VARIANT_INDEX[v.path.split('::')[-1]])     # constructed Option / Result value
             n = self.name_of(v)
             if n is None:
